@@ -162,3 +162,32 @@ def send_is_only_emitter(src):
     """C09/C17: frames reach a client only through WebSocketServer.send (which adds type and server_tx and
     requires a clean transaction state)"""
     return _set_eq("census.sendMessage_callers", call_sites("sendMessage"), {"server_websocket.WebSocketServer.send"})
+
+
+def heap_fields(src):
+    """C11/C02/C03: the in-memory state of the server is exactly what the heap model knows - the
+    attributes the constructors create (a new cache of database facts would not be modelled)"""
+    from pvc import heap as H
+    out = []
+    for cls, mod in (("Mailbox", "server"), ("AppNamespace", "server"), ("Server", "server"),
+                     ("WebSocketServer", "server_websocket")):
+        fd = src.func("%s.%s.__init__" % (mod, cls))
+        got = set()
+        for n in ast.walk(fd):
+            if isinstance(n, ast.Attribute) and isinstance(n.ctx, ast.Store) and isinstance(n.value, ast.Name) and n.value.id == "self":
+                got.add(n.attr)
+        want = (set(H.FIELDS.get(cls, {})) | H.CONFIG_FIELDS) - {"alive"}
+        extra = got - want
+        out.append(("census.heap_fields." + cls, not extra, "attributes created by %s.__init__ outside the heap model: %s" % (cls, sorted(extra))))
+    # no attribute of these objects is created elsewhere
+    created = set()
+    for mod, qual, fd in package_functions():
+        if qual.endswith(".__init__"):
+            continue
+        for n in ast.walk(fd):
+            if isinstance(n, ast.Attribute) and isinstance(n.ctx, ast.Store) and isinstance(n.value, ast.Name) and n.value.id == "self":
+                cls = qual.split(".")[1] if qual.count(".") >= 2 else None
+                if cls in H.FIELDS and n.attr not in H.FIELDS[cls] and n.attr not in H.CONFIG_FIELDS and n.attr != "_reactor":
+                    created.add("%s.%s" % (qual, n.attr))
+    out.append(("census.heap_fields.no_late_attributes", not created, "attributes set outside constructors: %s" % sorted(created)))
+    return out
